@@ -231,6 +231,34 @@ theorem stableRank_lt_of_before (ks : List Key) {i j : Nat} (hi : i < ks.length)
   · exact hb
   · exact before_irrefl ks i
 
+/-- the executable test is the specification -/
+theorem isRankingB_iff (ks : List Key) (rank : List Nat) :
+    isRankingB ks rank = true ↔ IsRanking ks rank := by
+  unfold isRankingB IsRanking
+  simp only [Bool.and_eq_true, beq_iff_eq, List.all_eq_true, List.mem_range, Bool.or_eq_true,
+    bne_iff_ne, ne_eq, Bool.not_eq_true', decide_eq_false_iff_not]
+  constructor
+  · rintro ⟨hl, h⟩
+    refine ⟨hl, ?_, ?_⟩
+    · intro i j hi hj heq
+      rcases (h i hi j hj).1 with h1 | h1
+      · exact absurd heq h1
+      · exact h1
+    · intro i j hi hj hlt
+      rcases (h i hi j hj).2 with h1 | h1
+      · exact absurd hlt h1
+      · exact h1
+  · rintro ⟨hl, h1, h2⟩
+    refine ⟨hl, ?_⟩
+    intro i hi j hj
+    constructor
+    · by_cases he : rank.getD i 0 = rank.getD j 0
+      · exact Or.inr (h1 i j hi hj he)
+      · exact Or.inl he
+    · by_cases hlt : rank.getD i 0 < rank.getD j 0
+      · exact Or.inr (h2 i j hi hj hlt)
+      · exact Or.inl hlt
+
 /-- the driver's ranking satisfies the relational specification -/
 theorem stableRank_isRanking (ks : List Key) : IsRanking ks (stableRank ks) := by
   refine ⟨by simp [stableRank], ?_, ?_⟩
